@@ -215,6 +215,19 @@ func ruleG3(c *Ctx, r *Report, scope map[*ssa.Function]bool, floor int) {
 				}
 				bound, incl, ok := inductionBound(ia.Index)
 				if !ok {
+					// `for i := range s { … s[i] … }`: the index is bounded by the length of the very slice it indexes
+					if rb, isRange := rangeIndexBound(ia.Index); isRange {
+						if call, isCall := stripConv(rb).(*ssa.Call); isCall {
+							if bi, isB := call.Call.Value.(*ssa.Builtin); isB && bi.Name() == "len" && sameSSA(call.Call.Args[0], ia.X) {
+								base := fmt.Sprintf("%s:%s indexed by its own range index", SSAFuncName(f), srcOf(f, mk.Pos(), "make", exprText(c, mk)))
+								seen[base]++
+								if seen[base] == 1 {
+									n++
+									r.OK("G3", base, c.Pos(ia.Pos()), "the index ranges over the slice it is used on")
+								}
+							}
+						}
+					}
 					continue
 				}
 				base := fmt.Sprintf("%s:%s indexed in %s", SSAFuncName(f), srcOf(f, mk.Pos(), "make", exprText(c, mk)), srcOf(f, ia.Pos(), "loop", "for i < "+valText(c, bound)))
